@@ -389,15 +389,19 @@ func (cf *ContractFile) addClause(c *Contract, kw, text, path string, line int) 
 			c.curView = ""
 			return nil
 		}
+		// "view a, b": the clauses that follow belong to both views
 		c.curView = name
-		seen := false
-		for _, v := range c.Views {
-			if v == name {
-				seen = true
+		for _, one := range strings.Split(name, ",") {
+			one = strings.TrimSpace(one)
+			seen := false
+			for _, v := range c.Views {
+				if v == one {
+					seen = true
+				}
 			}
-		}
-		if !seen {
-			c.Views = append(c.Views, name)
+			if !seen && one != "" {
+				c.Views = append(c.Views, one)
+			}
 		}
 	case "assumes":
 		// a postcondition that callers may use but that is not checked against the body (listed as an assumption)
